@@ -628,6 +628,74 @@ def _callee_copy(stmts, func):
 
 
 # ---------------------------------------------------------------------------------------------- temp forwarding
+def _reaches_first(e, t):
+    """'hit' when the local t is the first thing expression e evaluates that is not a plain name / constant /
+    attribute chain; 'miss' when something else is evaluated before it; 'none' when t does not occur."""
+    if e is None:
+        return 'none'
+    if isinstance(e, ast.Name):
+        return 'hit' if e.id == t else 'none'
+    if _simple(e):
+        return 'hit' if any(isinstance(x, ast.Name) and x.id == t for x in ast.walk(e)) else 'none'
+    if isinstance(e, ast.Call):
+        subs = [e.func.value if isinstance(e.func, ast.Attribute) else e.func] + list(e.args) + [k.value for k in e.keywords]
+    elif isinstance(e, (ast.Tuple, ast.List, ast.Set)):
+        subs = list(e.elts)
+    elif isinstance(e, ast.BinOp):
+        subs = [e.left, e.right]
+    elif isinstance(e, ast.Compare):
+        subs = [e.left] + list(e.comparators)
+    elif isinstance(e, (ast.Yield, ast.Await, ast.Starred)):
+        subs = [e.value]
+    elif isinstance(e, ast.UnaryOp):
+        subs = [e.operand]
+    elif isinstance(e, ast.Attribute):
+        subs = [e.value]
+    elif isinstance(e, ast.Subscript):
+        subs = [e.value, e.slice]
+    elif isinstance(e, ast.BoolOp):
+        subs = [e.values[0]]
+        rest_has = any(isinstance(x, ast.Name) and x.id == t for v in e.values[1:] for x in ast.walk(v))
+        r = _reaches_first(e.values[0], t)
+        return 'miss' if (r != 'hit' and rest_has) else r
+    elif isinstance(e, ast.IfExp):
+        r = _reaches_first(e.test, t)
+        rest_has = any(isinstance(x, ast.Name) and x.id == t for v in (e.body, e.orelse) for x in ast.walk(v))
+        return 'miss' if (r != 'hit' and rest_has) else r
+    else:
+        return 'miss' if any(isinstance(x, ast.Name) and x.id == t for x in ast.walk(e)) else 'none'
+    for sub in subs:
+        if sub is None:
+            continue
+        r = _reaches_first(sub, t)
+        if r == 'hit':
+            return 'hit'
+        if r == 'miss':
+            return 'miss'
+        if not _simple(sub):
+            # something else is evaluated here; t must not come later
+            later = False
+            seen = False
+            for s2 in subs:
+                if s2 is sub:
+                    seen = True
+                    continue
+                if seen and s2 is not None and any(isinstance(x, ast.Name) and x.id == t for x in ast.walk(s2)):
+                    later = True
+            return 'miss' if later else 'none'
+    return 'none'
+
+
+class _ReplaceName(ast.NodeTransformer):
+    def __init__(self, name, value):
+        self.name, self.value = name, value
+
+    def visit_Name(self, n):
+        if n.id == self.name and isinstance(n.ctx, ast.Load):
+            return self.value
+        return n
+
+
 def _temp_forward(stmts, func):
     """_inlN = E; yield _inlN  ->  yield E   (temporaries introduced by the inliner, used once, at once)"""
     loads = {}
@@ -702,8 +770,84 @@ def _temp_forward(stmts, func):
                 changed = True
                 i += 2
                 continue
+            if t.startswith('_inl'):
+                root = None
+                if isinstance(b, (ast.Expr, ast.Return, ast.Assign)) and b.value is not None:
+                    root = ('value', b.value)
+                elif isinstance(b, ast.If):
+                    root = ('test', b.test)
+                elif isinstance(b, ast.For):
+                    root = ('iter', b.iter)
+                if root is not None and _reaches_first(root[1], t) == 'hit' and \
+                        sum(1 for x in ast.walk(root[1]) if isinstance(x, ast.Name) and x.id == t) == 1:
+                    setattr(b, root[0], _ReplaceName(t, a.value).visit(root[1]))
+                    out.append(b)
+                    changed = True
+                    i += 2
+                    continue
         out.append(a)
         i += 1
+    return out if changed else None
+
+
+# ---------------------------------------------------------------------------------------------- constant tests
+def _const_truth(e):
+    """Truth value of a test made of constants only (after parameter substitution), else None."""
+    if isinstance(e, ast.Constant):
+        return bool(e.value)
+    if isinstance(e, ast.UnaryOp) and isinstance(e.op, ast.Not):
+        r = _const_truth(e.operand)
+        return None if r is None else (not r)
+    if isinstance(e, ast.Compare) and len(e.ops) == 1 and isinstance(e.left, ast.Constant) \
+            and isinstance(e.comparators[0], ast.Constant):
+        a, b, op = e.left.value, e.comparators[0].value, e.ops[0]
+        simple = (bool, int, str, bytes, type(None))
+        if type(a) not in simple or type(b) not in simple:
+            return None
+        if isinstance(op, (ast.Is, ast.IsNot)):
+            if a is None or b is None or isinstance(a, bool) or isinstance(b, bool):
+                r = a is b
+            else:
+                return None
+            return r if isinstance(op, ast.Is) else (not r)
+        if isinstance(op, (ast.Eq, ast.NotEq)):
+            r = (a == b) and (type(a) is type(b) or not (isinstance(a, (str, bytes)) or isinstance(b, (str, bytes))))
+            r = a == b
+            return r if isinstance(op, ast.Eq) else (not r)
+        return None
+    if isinstance(e, ast.BoolOp):
+        vals = [_const_truth(v) for v in e.values]
+        if isinstance(e.op, ast.And):
+            if any(v is False for v in vals):
+                # everything before the first False must be known true for the result to be decided without effects
+                for v in vals:
+                    if v is False:
+                        return False
+                    if v is None:
+                        return None
+            return True if all(v is True for v in vals) else None
+        for v in vals:
+            if v is True:
+                return True
+            if v is None:
+                return None
+        return False
+    return None
+
+
+def _fold_const_tests(stmts, func):
+    out = []
+    changed = False
+    for s in stmts:
+        if isinstance(s, ast.If):
+            r = _const_truth(s.test)
+            if r is not None:
+                out.extend(s.body if r else s.orelse)
+                changed = True
+                continue
+        out.append(s)
+    if changed and not out:
+        out = [ast.copy_location(ast.Pass(), stmts[0])]
     return out if changed else None
 
 
@@ -777,6 +921,7 @@ def simple_passes(modules, log):
             for name, f in (('constant loop unrolled', lambda b, f_, cls=cls: ur.block(b, f_, cls)),
                             ('dispatch table turned into an if-chain', lambda b, f_, cls=cls: dd.block(b, f_, cls)),
                             ('tuple assignment split', _tuple_split),
+                            ('constant test folded', _fold_const_tests),
                             ('continuation threaded into the tails of a flag-setting statement', _thread),
                             ('callee copy-propagated', _callee_copy),
                             ('single-use temporary forwarded', _temp_forward)):
